@@ -8,7 +8,7 @@ from props import c04
 
 ID = "C19"
 LEVEL = "proof"
-THEOREMS = ["C19_search_terminates_partial", "C19_unrepaired_loop_diverges"]
+THEOREMS = ["C19_search_terminates", "C19_unrepaired_loop_diverges", "C19_constrain_valid", "C19_mutate_valid", "C19_search_output_valid", "C19_valid_is_checked_predicate", "C19_triple_ok_sound", "C19_valid_shape"]
 TRUSTED = ["clang ASan/UBSan build of spuriousSSM.c from the working tree (ASAN_OPTIONS=detect_leaks=0: the one-block oldS leak at exit is not a memory error)",
            "the score functions are abstracted to an arbitrary strict order in the theorem; erand48 / /dev/urandom are outside the model",
            "harness generator of consistent triples: designer model output (consistent by the C04/C05 machinery) and hand-built ones"]
@@ -17,7 +17,8 @@ ASSUMPTIONS = ["a run with no tmax/imax is given 150 s (ASan build) before it is
 OPTION_SETS = [[], [], ["score=automatic"], ["score=automatic"], ["bmax=5"], ["imax=50"], ["tmax=1"], ["score=bonds"], ["score=verboten"],
                ["score=spurious", "bmult=2"], ["score=automatic", "W_spurious=0", "W_verboten=0"], ["trace=ON", "imax=40"], ["trace=ON", "score=automatic", "bmult=1"],
                ["quiet=TRUE"], ["quiet=ALL", "imax=10"], ["quiet=WATCH", "bmax=3"], ["spurious_range=3", "imax=30"], ["spurious_equality=0", "bmax=4"],
-               ["score=automatic", "temperature=25", "W_bonds=2.5", "bmult=1"], ["bored=2"], ["OUTPUT"], ["SEQUENCE", "imax=20"]]
+               ["score=automatic", "temperature=25", "W_bonds=2.5", "bmult=1"], ["bored=2"], ["OUTPUT"], ["SEQUENCE", "imax=20"],
+               ["SEQUENCE", "trace=ON", "imax=30"], ["SEQUENCE", "imax=1"], ["SEQUENCE", "trace=ON", "score=automatic", "bmult=1"], ["SEQUENCE", "trace=ON", "bmax=6"]]
 
 def hand_triples(rng):
     out = []
@@ -47,14 +48,15 @@ def impl_case(case):
     open(os.path.join(d, "t.wc"), "w").write("".join("%d " % x for x in wc))
     open(os.path.join(d, "t.eq"), "w").write("".join("%d " % x for x in eq))
     args = [case["binary"], "template=" + os.path.join(d, "t.st"), "wc=" + os.path.join(d, "t.wc"), "eq=" + os.path.join(d, "t.eq")]
-    outfile = None
+    outfile = None; init = None
     for o in case["opts"]:
         if o == "OUTPUT":
             outfile = os.path.join(d, "final.txt"); args.append("output=" + outfile)
         elif o == "SEQUENCE":
             rng = random.Random(case["seed"])
             G = pepper.GROUPS
-            open(os.path.join(d, "t.rS"), "w").write("".join(rng.choice(G[c]) if c in G else " " for c in st))
+            init = "".join(rng.choice(G[c]) if c in G else " " for c in st)      # within the templates, not obeying eq / wc
+            open(os.path.join(d, "t.rS"), "w").write(init)
             args.append("sequence=" + os.path.join(d, "t.rS"))
         else:
             args.append(o)
@@ -71,10 +73,13 @@ def impl_case(case):
     n = len(st)
     lines = out.split("\n")
     seqlines = [l for l in lines if len(l) == n and re.fullmatch(r"[ACGT ]+", l)]
+    mc = re.search(r"constrained S = <([ACGT ]*)>", out)
     if final is None:
         nonempty = [l for l in lines if l != ""]
         final = nonempty[-1] if nonempty else None
-    return {"outcome": "done", "rc": p.returncode, "stderr": err[-800:], "final": final, "traced": seqlines[-200:], "argv": " ".join(args[1:])}
+    return {"outcome": "done", "rc": p.returncode, "stderr": err[-800:], "final": final, "traced": seqlines[-200:], "argv": " ".join(args[1:]),
+            "init": init, "constrained": mc.group(1) if mc else None,
+            "chain": seqlines if ("trace=ON" in case["opts"] and len(seqlines) <= 1500) else None}
 
 def run(tier, seed, build):
     rng = random.Random(seed * 523 + 19)
@@ -111,11 +116,40 @@ def run(tier, seed, build):
             for s in ([r["final"]] if r["final"] is not None else []) + r["traced"][-40:]:
                 vreq.append(["ssmvalid", [c["st"], c["wc"], c["eq"], s]]); where.append((ci, s))
     vres = fw.run_model(vreq)
+    # exact ties of the model of constrain / mutate to the binary, and the hypothesis of the validity theorems
+    treq = []; twhere = []
+    for ti, (st, wc, eq) in enumerate(triples):
+        treq.append(["ssmtriple", [st, wc, eq]]); twhere.append(("triple", ti, None))
+    for ci, (c, r) in enumerate(zip(cases, impl)):
+        if isinstance(r, dict) and r.get("outcome") == "done" and r.get("rc") == 0:
+            if r.get("init") is not None and r.get("constrained") is not None:
+                treq.append(["ssmconstrain", [c["st"], c["wc"], c["eq"], r["init"]]]); twhere.append(("constrain", ci, r["constrained"]))
+            if r.get("chain") is not None and r.get("constrained") is not None:
+                prev = r["constrained"]
+                for s_ in r["chain"]:
+                    if s_ != prev:
+                        treq.append(["ssmstep", [c["st"], c["wc"], c["eq"], prev, s_]]); twhere.append(("step", ci, (prev, s_)))
+                        prev = s_
+    tres = fw.run_model(treq)
+    tie_fail = {}; bad_triples = []; nsteps = 0; nconstrain = 0
+    for (kind, idx, extra), v in zip(twhere, tres):
+        if kind == "triple":
+            if v != "T": bad_triples.append(idx)
+        elif kind == "constrain":
+            nconstrain += 1
+            if v != extra: tie_fail.setdefault(idx, ("constrain", "model constrain gives %r, the binary printed %r" % (v, extra)))
+        else:
+            nsteps += 1
+            if v != "T": tie_fail.setdefault(idx, ("step", "no mutation of a free location to a base of its template turns %r into the next traced sequence %r" % extra))
     invalid = {}
     for (ci, s), v in zip(where, vres):
         if v != "T": invalid.setdefault(ci, s)
     failures = []; nontrivial = set()
-    dist = {"runs": len(cases), "triples": len(triples), "no_limit_runs": 0, "sequences_validated": len(vreq), "lengths": {}, "options": {}, "free_bases": 0}
+    dist = {"runs": len(cases), "triples": len(triples), "no_limit_runs": 0, "sequences_validated": len(vreq), "lengths": {}, "options": {}, "free_bases": 0,
+            "constrain_compared": nconstrain, "search_steps_matched": nsteps}
+    for ti in bad_triples:
+        failures.append({"kind": "tie", "key": "triple-ok", "summary": "a generated triple does not satisfy triple_ok (hypothesis of the validity theorems): %r" % (triples[ti][0][:60],),
+                         "replay": {"template": triples[ti][0], "wc": triples[ti][1], "eq": triples[ti][2]}})
     for ci, (c, r) in enumerate(zip(cases, impl)):
         rep = {"template": c["st"], "wc": c["wc"], "eq": c["eq"], "options": c["opts"],
                "reproduce": "build spuriousSSM.c with clang -fsanitize=address,undefined; write the three arrays to t.st / t.wc / t.eq; timeout 150 ./spuriousSSM template=t.st wc=t.wc eq=t.eq " + " ".join(c["opts"])}
@@ -137,11 +171,13 @@ def run(tier, seed, build):
             failures.append({"kind": "predicate", "key": "exit-status", "summary": "exit status %s on a consistent triple (options [%s]): %s" % (r["rc"], " ".join(c["opts"]), r["stderr"][-200:].replace("\n", " | ")), "replay": rep}); continue
         if r["final"] is None or len(r["final"]) != n:
             failures.append({"kind": "predicate", "key": "output-shape", "summary": "the output %r is not one sequence of the input length %d" % (r["final"], n), "replay": rep}); continue
+        if ci in tie_fail:
+            failures.append({"kind": "disagreement", "key": "model-" + tie_fail[ci][0], "summary": "the model of spuriousSSM's %s disagrees with the binary: %s" % tie_fail[ci], "replay": rep}); continue
         if ci in invalid:
             failures.append({"kind": "predicate", "key": "invalid-sequence", "summary": "a printed sequence violates template / eq / wc: %r" % invalid[ci], "replay": rep}); continue
         if any(x != -1 for x in c["wc"]) or n >= 100: nontrivial.add((c["st"], tuple(c["opts"])))
     return {"evaluations": len(cases), "distinct_nontrivial": len(nontrivial),
-            "rule": "consistent triples: the designer model's files for generated PIL documents in both layouts, plus hand-built ones (length 1 and 2, blanks, hairpins, unconstrained designs of 97-282 positions, fully fixed) x option sets (none, score=automatic, bmax, imax, tmax, score modes and weights, trace=ON, quiet modes, output=, sequence=, spurious_range/equality, temperature); ASan+UBSan binary under a time-out; exit status, output shape, every traced and final sequence through the extracted validity predicate. Non-trivial = has pairs or at least 100 positions",
+            "rule": "consistent triples: the designer model's files for generated PIL documents in both layouts, plus hand-built ones (length 1 and 2, blanks, hairpins, unconstrained designs of 97-282 positions, fully fixed) x option sets (none, score=automatic, bmax, imax, tmax, score modes and weights, trace=ON, quiet modes, output=, sequence=, spurious_range/equality, temperature); ASan+UBSan binary under a time-out; exit status, output shape, every traced and final sequence through the extracted validity predicate; the model's constrain compared exactly with the binary's 'constrained S' for start sequences given by file (within the templates, not obeying eq/wc), every consecutive pair of traced sequences must be one model mutation of a free location; triple_ok evaluated on every triple. Non-trivial = has pairs or at least 100 positions",
             "samples": [{"template": c["st"], "options": c["opts"]} for c in cases[:5]], "distribution": dist, "failures": failures}
 
 def replay(path):
